@@ -100,6 +100,33 @@ Proof.
   split; [rewrite Hl; unfold tokenLength in *; lia|exact Hf].
 Qed.
 
+(** the synthesised token is the prefix followed by the random source's bytes, and nothing
+    else: two dials send the same token exactly when the source delivered the same bytes *)
+Lemma dummyPop_is_prefix_oracle tlen prefix tail :
+  (length prefix <= Z.to_nat tlen)%nat ->
+  dummyPop tlen prefix tail = prefix ++ firstn (Z.to_nat tlen - length prefix) tail.
+Proof. intros H. unfold dummyPop. rewrite firstn_all2 by lia. reflexivity. Qed.
+
+Lemma resolveToken_is_prefix_oracle ctl prefix tail conf :
+  tokenLength ctl prefix > 0 ->
+  resolveToken None ctl prefix tail conf
+  = Some (prefix ++ firstn (Z.to_nat (tokenLength ctl prefix) - length prefix) tail).
+Proof.
+  intros Hpos. unfold resolveToken. destruct (Z.gtb_spec (tokenLength ctl prefix) 0); [|lia].
+  rewrite dummyPop_is_prefix_oracle by (unfold tokenLength; lia). reflexivity.
+Qed.
+
+Lemma token_fresh_iff ctl prefix tail1 tail2 conf1 conf2 :
+  tokenLength ctl prefix > 0 ->
+  let k := (Z.to_nat (tokenLength ctl prefix) - length prefix)%nat in
+  (resolveToken None ctl prefix tail1 conf1 = resolveToken None ctl prefix tail2 conf2
+   <-> firstn k tail1 = firstn k tail2).
+Proof.
+  intros Hpos k. rewrite !resolveToken_is_prefix_oracle by assumption. fold k. split.
+  - intros H. inversion H as [H1]. apply app_inv_head in H1. exact H1.
+  - intros ->. reflexivity.
+Qed.
+
 Lemma resolveToken_explicit t ctl prefix tail conf :
   resolveToken (Some t) ctl prefix tail conf = t.
 Proof. reflexivity. Qed.
@@ -167,6 +194,21 @@ Proof.
   intros Hcap mn. unfold appendInitial, paddedLen. cbn [snd Z.gtb Z.compare Z.eqb]. fold mn.
   destruct (Z.gtb_spec (hdr + plen + overhead) bufCap); [lia|].
   destruct (Z.ltb_spec (hdr + plen + overhead) mn) as [Hlt|Hge]; f_equal; lia.
+Qed.
+
+(** the open finding size-max/udp-min, precisely: with PacketSize 0 the QUIC packet and its
+    Length field do not depend on UDPDatagramMinSize at all; the datagram exceeds a maximum
+    packet size that the packet respects exactly when the (buffer-capped) UDP minimum does,
+    and then the datagram IS that minimum -- all of the excess is padding behind the packet *)
+Lemma udp_min_excess cl hdr pnLen plen udpMin maxSize :
+  hdr + plen + overhead <= bufCap -> hdr + plen + overhead <= maxSize ->
+  let mn := Z.min (if udpMin =? 0 then dfltUDPMin else udpMin) bufCap in
+  exists dl, appendInitial (cl, 0) hdr pnLen plen udpMin
+             = AppOk (pnLen + plen + overhead) (hdr + plen + overhead) dl false /\
+             (maxSize < dl <-> maxSize < mn) /\ (maxSize < dl -> dl = mn).
+Proof.
+  intros Hcap Hmax mn. rewrite append_udp_min by assumption. fold mn.
+  eexists. split; [reflexivity|]. split; lia.
 Qed.
 
 (** output never exceeds the packet buffer, or an error is returned; releasing the buffer
